@@ -126,6 +126,12 @@ def build(kind, wshape):
     x = g.input('x', wshape)
     c = g.const('c', np.ones(wshape, np.float32))
     g.output(g.binary(kind[:3], x, c, 'y'))
+  elif kind == 'CONCAT_CONST2':
+    # two constant operands of different content and shape
+    x = g.input('x', wshape)
+    c1 = g.const('c1', np.ones(wshape, np.float32))
+    c2 = g.const('c2', np.ones((wshape[0], wshape[1] - 1), np.float32))
+    g.output(g.concat([x, c1, c2], 'y'))
   elif kind == 'CONCAT_CONST':
     # a constant operand of an op whose inputs take the OUTPUT's parameters
     x = g.input('x', wshape)
@@ -190,7 +196,7 @@ def cases(tier):
       if tier == 'thorough':
         cs.append((kind, shp, 'SRQ16C', srq(16, 8, 'CHANNELWISE')))
   cs.append(('ADD_CONST', (1, 3), 'SRQ8C', srq(8, 8, 'CHANNELWISE')))
-  for kind in ('MUL_CONST', 'SUB_CONST', 'CONCAT_CONST'):
+  for kind in ('MUL_CONST', 'SUB_CONST', 'CONCAT_CONST', 'CONCAT_CONST2'):
     # the rule names the operator (with '*' the virtual INPUT op is quantized
     # too and the pipeline compares two symbolic float32 scales for equality -
     # a branch the bit-precise solver does not decide within the budget; the
